@@ -12,6 +12,7 @@ from asyncio import (
     gather,
     get_running_loop,
     isfuture,
+    wait,
 )
 from typing import TYPE_CHECKING, Any, NamedTuple, cast
 
@@ -145,17 +146,20 @@ class StreamItemQueue:
             held = None
             if isfuture(entry):
                 future = entry
+                # wait() only raises when the consumer itself is cancelled, which
+                # must be distinguished from the cancellation of the awaited item
+                await wait((future,))
+                if future.cancelled():
+                    if not self._failed:
+                        raise CancelledError
+                    # This pending item was cancelled because the stream failed at a
+                    # later item; since the items must be delivered without gaps,
+                    # drop the remaining items and deliver that failure.
+                    while not isinstance(entry, _ErrorEntry):
+                        entry = await entries.get()
+                    raise entry.error
                 try:
-                    entry = await future
-                except CancelledError:
-                    if future.cancelled() and self._failed:
-                        # This pending item was cancelled because the stream failed
-                        # at a later item; since the items must be delivered without
-                        # gaps, drop the remaining items and deliver that failure.
-                        while not isinstance(entry, _ErrorEntry):
-                            entry = await entries.get()
-                        raise entry.error from None
-                    raise
+                    entry = future.result()
                 except Exception:
                     await self._cleanup()
                     raise
